@@ -86,18 +86,23 @@ XalanSourceTreeParserLiaison::reset()
 
     MemoryManager&  theManager = getMemoryManager();
 
-    for (iterator i = m_documentMap.begin(); i != m_documentMap.end(); ++i)
+    // (begin() of a map that was never used would allocate,
+    // and this is called from the destructor.)
+    if (m_documentMap.empty() == false)
     {
-        assert((*i).second != 0);
+        for (iterator i = m_documentMap.begin(); i != m_documentMap.end(); ++i)
+        {
+            assert((*i).second != 0);
 
-        XalanDestroy(
-            theManager,
-            *(*i).second);
+            XalanDestroy(
+                theManager,
+                *(*i).second);
 
-        (*i).second = 0;
+            (*i).second = 0;
+        }
+
+        m_documentMap.clear();
     }
-
-    m_documentMap.clear();
 
     m_xercesParserLiaison.reset();
 }
